@@ -95,7 +95,12 @@ def pull(fs: int) -> bool:
             st["pulls"] += 1
             events.append(("end", st["pulls"], st["got"]))
 
-        opts = pj.make_options(phys, frame_size=fs, generalized=integ == "generic", rdf_star=integ == "generic")
+        if P.get("via_flow"):
+            # the bound configured through an explicit flow object; options.frame_size keeps its default
+            cls = F.FlatTriplesFrameFlow if phys == 1 else F.FlatQuadsFrameFlow
+            opts = pj.make_options(phys, flow=cls(frame_size=fs), generalized=integ == "generic", rdf_star=integ == "generic")
+        else:
+            opts = pj.make_options(phys, frame_size=fs, generalized=integ == "generic", rdf_star=integ == "generic")
         if integ == "generic":
             from pyjelly.integrations.generic.serialize import flat_stream_to_frames
         else:
